@@ -9,7 +9,6 @@ import (
 	"strings"
 	"syscall"
 
-	"verifharness/internal/coretree"
 )
 
 // TNode is the specification of one filesystem node the harness builds.
@@ -193,15 +192,15 @@ func (w *WNode) coq(mt, ino *ranks) string {
 	case syscall.S_IFDIR:
 		items := make([]string, len(w.Kids))
 		for i, k := range w.Kids {
-			items[i] = "(" + coretree.Str(k.Name) + ", " + k.coq(mt, ino) + ")"
+			items[i] = "(" + cstr(k.Name) + ", " + k.coq(mt, ino) + ")"
 		}
-		return fmt.Sprintf("D %d %d %d [%s]", w.Perm, mt.of(uint64(w.Mtime)), ino.of(w.Ino), strings.Join(items, "; "))
+		return fmt.Sprintf("D %s %s %s [%s]", num(uint64(w.Perm)), num(uint64(mt.of(uint64(w.Mtime)))), num(uint64(ino.of(w.Ino))), strings.Join(items, "; "))
 	case syscall.S_IFREG:
-		return fmt.Sprintf("F %d %d %d %s", w.Perm, mt.of(uint64(w.Mtime)), ino.of(w.Ino), coretree.Str(w.Data))
+		return fmt.Sprintf("F %s %s %s %s", num(uint64(w.Perm)), num(uint64(mt.of(uint64(w.Mtime)))), num(uint64(ino.of(w.Ino))), cstr(w.Data))
 	case syscall.S_IFLNK:
-		return fmt.Sprintf("L %d %d %s", mt.of(uint64(w.Mtime)), ino.of(w.Ino), coretree.Str(w.Target))
+		return fmt.Sprintf("L %s %s %s", num(uint64(mt.of(uint64(w.Mtime)))), num(uint64(ino.of(w.Ino))), cstr(w.Target))
 	default:
-		return fmt.Sprintf("X %d %d %d %d", w.Perm, mt.of(uint64(w.Mtime)), ino.of(w.Ino), w.Type)
+		return fmt.Sprintf("X %s %s %s %s", num(uint64(w.Perm)), num(uint64(mt.of(uint64(w.Mtime)))), num(uint64(ino.of(w.Ino))), num(uint64(w.Type)))
 	}
 }
 
